@@ -222,8 +222,33 @@ def r4(cx):
     own = [t for t in gd if "VarlinkService" in t.callee.resolved]
     reg = [t for t in gd if t not in own]
     why = []
+    gt = [t for t in body.calls("=get") if "HashMap" in t.callee.resolved]
+    get_form = not ck and not ix and len(gt) == 1
+    if get_form:
+        # `self.ifaces.get(key)` (possibly `.map(|i| i.get_description())`): Some -> that interface's text, None -> InvalidParameter("interface")
+        clos = [x for x in body.unit.bodies if x.promoted is None and x.parent in ([body.path] + [p for p, _ in getattr(body, "inlined", [])])]
+        reg = reg + [t for c in clos for t in c.calls("=get_description") if "VarlinkService" not in t.callee.resolved]
+        g = gt[0]
+        f = []
+        for l in ref_chain(du, g.args[0].place.l):
+            for k, d in du.defs.get(l, []):
+                if k == "stmt" and d.rplace is not None: f += d.rplace.fields()
+        if "ifaces" not in f: why.append("the lookup is not on the interface table")
+        ok_none = False
+        slp = Slice(body, du, extra_pass=("=map", "=cloned", "=copied", "=as_deref"))
+        for b in body.blocks:
+            if b.cleanup or b.term.kind != "switch": continue
+            c = switch_cond(body, du, b.term)
+            if c.kind == "discr" and c.place is not None and not c.place.p and any(k == "call" and o is g for k, o in slp.origins(c.place)):
+                none = variant_edge(b.term, 0)
+                for x in inv:
+                    l2 = [o.cstr() for k, o in Slice(body, du, extra_pass=("=into", "=from", "=to_string")).origins(x.args[1]) if k == "const" and o.cstr()]
+                    if l2 == ["interface"] and x.bb in cfg.after(none) and x.bb not in cfg.after(variant_edge(b.term, 1)): ok_none = True
+        if not ok_none: why.append("an interface that is not registered is not answered with InvalidParameter(\"interface\")")
+        if len(body.calls("=from_value")) != 1: why.append("parameters are not deserialised once")
     if len(own) != 1 or len(reg) != 1: why.append("descriptions come from %d own / %d registered get_description calls" % (len(own), len(reg)))
-    if len(ck) != 1 or len(ix) != 1: why.append("lookup is not contains_key + index")
+    if get_form: pass
+    elif len(ck) != 1 or len(ix) != 1: why.append("lookup is not contains_key + index")
     else:
         k1 = {(k, str(o)) for k, o in sl.origins(ck[0].args[1])}; k2 = {(k, str(o)) for k, o in sl.origins(ix[0].args[1])}
         if k1 != k2: why.append("contains_key and index use different keys")
